@@ -276,6 +276,11 @@ func (f *FuncVC) applyMod(st *State, m resolvedMod, src string) {
 				if mm.heap == m.heap && m.kind == "elems" {
 					ok = append(ok, eq(m.obj, mm.obj))
 				}
+			case "heap":
+				// all(T) / allelems(T) in our own clause covers every object of that heap family
+				if mm.heap == m.heap || strings.HasPrefix(m.heap, mm.heap+".") {
+					all = true
+				}
 			}
 		}
 		if !all {
